@@ -223,7 +223,7 @@ class Model:
         return self.find_lcca([t.source] + tstates)
 
     def exit_set(self, ts):
-        if 'large-select' in self.quirks:
+        if 'large-select' in self.quirks or 'fast-select' in self.quirks:
             r = set()
             for t in ts:
                 a, b = self._large_interval(t)
@@ -250,6 +250,8 @@ class Model:
     def select(self, event):
         if 'large-select' in self.quirks:
             return self.select_large(event)
+        if 'fast-select' in self.quirks:
+            return self.select_fast(event)
         enabled = []
         atomic = [s for s in self.doc(self.configuration) if s.is_atomic()]
         for st in atomic:
@@ -311,17 +313,37 @@ class Model:
         if d is None:
             return (0, 0)
         first = d.order + 1
-        nxt = None
-        if d.parent is not None:
-            sibs = d.parent.proper_children()
-            i = sibs.index(d)
-            if i + 1 < len(sibs):
-                nxt = sibs[i + 1]
-        if nxt is not None:
-            second = nxt.order - 1
-        else:
-            second = len(self.ch.states) - 1
+        second = max([x.order for x in d.descendants()] + [d.order])
         return (first, second)
+
+    def select_fast(self, event):
+        """transcription of FastMicroStep's selection: all transitions in post-fix order, first wins,
+        conflict = exit intervals overlap or sources equal / ancestrally related (known finding F-C03-1)"""
+        pf = self._postfix()
+        tkey = lambda t: (pf[t.source], t.source.transitions.index(t))
+        order = sorted([t for t in self.ch.transitions if t.kind == 'normal'], key=tkey)
+        taken, conflicts = [], set()
+
+        def conflict(a, b):
+            e1, e2 = self._large_interval(a), self._large_interval(b)
+            if not (e1[0] == 0 and e2[0] == 0):
+                if (e1[0] <= e2[0] and e1[1] >= e2[0]) or (e2[0] <= e1[0] and e2[1] >= e1[0]):
+                    return True
+            return a.source is b.source or a.source.is_descendant_of(b.source) or b.source.is_descendant_of(a.source)
+        for t in order:
+            if t.source not in self.configuration or t in conflicts:
+                continue
+            if (not t.events and event is not None) or (t.events and event is None):
+                continue
+            if event is not None and not ref_name_match(" ".join(t.events), event):
+                continue
+            if not self.cond(t):
+                continue
+            taken.append(t)
+            for u in order:
+                if u is not t and conflict(t, u):
+                    conflicts.add(u)
+        return taken
 
     def select_large(self, event):
         pf = self._postfix()
